@@ -822,6 +822,11 @@ func (g *vgen) val(ts *TSpec, opt string, depth int) Val {
 		return Val{T: g.timeVal()}
 	case KNullInt, KNullBool, KNullFloat, KNullString, KNullTime:
 		if rapid.IntRange(0, 2).Draw(g.t, "nn") == 0 {
+			if (u.Kind == KNullInt || u.Kind == KNullBool || u.Kind == KNullString) && rapid.IntRange(0, 2).Draw(g.t, "leftover") == 0 {
+				// invalid, but the payload still holds something: must be treated exactly like invalid
+				in := g.val(nullInner(u.Kind), "", depth)
+				return Val{Nil: true, P: &in}
+			}
 			return Val{Nil: true}
 		}
 		in := g.val(nullInner(u.Kind), "", depth)
